@@ -20,6 +20,22 @@ theorem nodeAt_of_lowers {d d' : Disk} (h : d'.lowers = d.lowers) {i : Nat} (hi 
   | zero => exact absurd rfl hi
   | succ j => simp [Disk.nodeAt, Disk.layer, h]
 
+/-- every node keeps a first real inode of the same kind: a directory stays one, a non-directory
+    stays one, and what was not a whiteout does not become one -/
+def StatKept (s s' : St) : Prop := ∀ p' m0 r0 rest0, s.mem p' = some m0 → m0.reals = r0 :: rest0 →
+  ∃ m1 r1 rest1, s'.mem p' = some m1 ∧ m1.reals = r1 :: rest1 ∧
+    (s'.disk.statReal r1).isDir = (s.disk.statReal r0).isDir ∧
+    ((s.disk.statReal r0).isWhiteout = false → (s'.disk.statReal r1).isWhiteout = false)
+
+theorem StatKept.refl (s : St) : StatKept s s :=
+  fun _ m0 r0 rest0 h hr => ⟨m0, r0, rest0, h, hr, rfl, fun h => h⟩
+
+theorem StatKept.trans {s s1 s2 : St} (h1 : StatKept s s1) (h2 : StatKept s1 s2) : StatKept s s2 := by
+  intro p' m0 r0 rest0 hm hr
+  obtain ⟨m1, r1, rest1, hm1, hr1, hd1, hw1⟩ := h1 p' m0 r0 rest0 hm hr
+  obtain ⟨m2, r2, rest2, hm2, hr2, hd2, hw2⟩ := h2 p' m1 r1 rest1 hm1 hr1
+  exact ⟨m2, r2, rest2, hm2, hr2, by rw [hd2, hd1], fun h => hw2 (hw1 h)⟩
+
 /-- what `create_upper_dir(p)` guarantees when it succeeds from `s` -/
 structure CUD (p : Path) (s s' : St) : Prop where
   cons : Consistent s'
@@ -28,6 +44,7 @@ structure CUD (p : Path) (s s' : St) : Prop where
   upper : s'.disk.upper.isSome
   frame : ∀ p', ¬ p'.isSuffixOf p → s'.mem p' = s.mem p'
   keep : ∀ p' m0, s.mem p' = some m0 → ∃ m1, s'.mem p' = some m1 ∧ m1.loaded = m0.loaded ∧ m1.kids = m0.kids
+  stat : StatKept s s'
 
 /-- on failure -/
 structure CUDE (s s' : St) : Prop where
@@ -81,7 +98,7 @@ theorem cudStep_spec {s : St} (hc : Consistent s) (hu : s.disk.upper.isSome) (n 
     simp [childReal, realOf, nodeAt_setUpper _ _ _ hu, Node.isWhiteout, Node.isOpaqueDir]
   have hcons := upperDir_consistent hc hup n pp hpm hm hpu hmu hr hdir mode
     (s.log ++ [⟨0, Method.mkdir⟩])
-  refine ⟨_, ?_, ⟨hcons, ?_, ?_, ?_, ?_, ?_⟩, ?_⟩
+  refine ⟨_, ?_, ⟨hcons, ?_, ?_, ?_, ?_, ?_, ?_⟩, ?_⟩
   · have hq : realOf (s.disk.setUpper (n :: pp) (.dir mode 0 0)) (n :: pp) 0 =
         { layer := 0, inUpper := true, path := n :: pp, whiteout := false, opq := false } := by
       simp [realOf, nodeAt_setUpper _ _ _ hu, Node.isWhiteout, Node.isOpaqueDir]
@@ -104,6 +121,25 @@ theorem cudStep_spec {s : St} (hc : Consistent s) (hu : s.disk.upper.isSome) (n 
       exact ⟨{ m with whiteout := false, reals := realOf (s.disk.setUpper (n :: pp) (.dir mode 0 0)) (n :: pp) 0 :: m.reals },
         by simp [Mem.set], rfl, rfl⟩
     · exact ⟨m0, by simp [Mem.set, hp', hm0], rfl, rfl⟩
+  · intro p' m0 r0 rest0 hm0 hr0
+    by_cases hp' : p' = n :: pp
+    · subst hp'
+      rw [hm] at hm0; cases hm0
+      rw [hr] at hr0; cases hr0
+      refine ⟨{ m with whiteout := false, reals := realOf (s.disk.setUpper (n :: pp) (.dir mode 0 0)) (n :: pp) 0 :: m.reals },
+        realOf (s.disk.setUpper (n :: pp) (.dir mode 0 0)) (n :: pp) 0, m.reals, by simp [Mem.set], rfl, ?_, ?_⟩
+      · show ((s.disk.setUpper (n :: pp) (.dir mode 0 0)).statReal _).isDir = _
+        rw [statReal_realOf, nodeAt_setUpper _ _ _ hu, hdir]; simp [Node.isDir]
+      · intro _
+        show ((s.disk.setUpper (n :: pp) (.dir mode 0 0)).statReal _).isWhiteout = false
+        rw [statReal_realOf, nodeAt_setUpper _ _ _ hu]; simp [Node.isWhiteout]
+    · have hrp := (reals_shape hc hm0 r0 (by simp [hr0])).1
+      refine ⟨m0, r0, rest0, by simp [Mem.set, hp', hm0], hr0, ?_, ?_⟩
+      · show ((s.disk.setUpper (n :: pp) (.dir mode 0 0)).nodeAt r0.layer r0.path).isDir = _
+        rw [nodeAt_setUpper_ne _ _ _ hu _ _ (fun h => hp' (hrp ▸ h.2))]; rfl
+      · intro h
+        show ((s.disk.setUpper (n :: pp) (.dir mode 0 0)).nodeAt r0.layer r0.path).isWhiteout = false
+        rw [nodeAt_setUpper_ne _ _ _ hu _ _ (fun h => hp' (hrp ▸ h.2))]; exact h
   · intro p' hp'
     simp [Mem.set, hp']
 
@@ -150,7 +186,7 @@ theorem createUpperDir_spec : ∀ (p : Path) (s : St), Consistent s → s.disk.u
       by_cases hd : (s.disk.statReal r).isDir = true
       · by_cases hmu : m.inUpper = true
         · simp [Outcome, bind, M.bind, getNode, hm, hst, hd, hmu, pure, M.pure]
-          exact ⟨hc, ⟨m, hm, hmu⟩, rfl, hu, fun _ _ => rfl, fun p' m0 h => ⟨m0, h, rfl, rfl⟩⟩
+          exact ⟨hc, ⟨m, hm, hmu⟩, rfl, hu, fun _ _ => rfl, fun p' m0 h => ⟨m0, h, rfl, rfl⟩, StatKept.refl s⟩
         · simp [Outcome, bind, M.bind, getNode, hm, hst, hd, hmu, fail]
           exact ⟨hc, rfl, hu⟩
       · simp [Outcome, bind, M.bind, getNode, hm, hst, hd, fail]
@@ -173,7 +209,7 @@ theorem createUpperDir_spec : ∀ (p : Path) (s : St), Consistent s → s.disk.u
         by_cases hd : (s.disk.statReal r).isDir = true
         · by_cases hmu : m.inUpper = true
           · simp [Outcome, bind, M.bind, getNode, hm, hst, hd, hmu, pure, M.pure]
-            exact ⟨hc, ⟨m, hm, hmu⟩, rfl, hu, fun _ _ => rfl, fun p' m0 h => ⟨m0, h, rfl, rfl⟩⟩
+            exact ⟨hc, ⟨m, hm, hmu⟩, rfl, hu, fun _ _ => rfl, fun p' m0 h => ⟨m0, h, rfl, rfl⟩, StatKept.refl s⟩
           · simp only [Bool.not_eq_true] at hmu
             obtain ⟨pm, hpm, _⟩ := hc.reach n pp m hm
             have hrl := real_lower hc hm hr hmu
@@ -208,7 +244,11 @@ theorem createUpperDir_spec : ∀ (p : Path) (s : St), Consistent s → s.disk.u
                 rw [nodeAt_of_lowers hlow hrl]; exact hd
               obtain ⟨s2, hs2, hcud, hfr⟩ := cudStep_spec hc1 hu1 n pp hpm1 hm1 hpu1 hmu hr hdir1 (s.disk.statReal r).mode
               rw [hs2]
-              refine ⟨hcud.cons, hcud.up, by rw [hcud.lowers, hlow], hcud.upper, ?_, ?_⟩
+              have hstat1 : StatKept s s1 := by
+                rcases h1 with h | ⟨h, _⟩
+                · exact h.stat
+                · rw [h]; exact StatKept.refl s
+              refine ⟨hcud.cons, hcud.up, by rw [hcud.lowers, hlow], hcud.upper, ?_, ?_, hstat1.trans hcud.stat⟩
               · intro p' hp'
                 have hne : p' ≠ n :: pp := by
                   intro h; subst h; simp at hp'
@@ -371,7 +411,41 @@ theorem copyFileUp_spec {s : St} (hc : Consistent s) (hu : s.disk.upper.isSome) 
       intro s3 ⟨L3, hd3, hsh, hstp⟩ hm3
       have hfinal := consistent_sameShape hA (L := L.set (n :: pp) X) (L' := L3)
         (by simp [Disk.setUpper, hup, Disk.setLayer]) hsh hstp []
-      refine ⟨hfinal.congr ?_ ?_, ?_, ?_, ?_, ?_, ?_⟩
+      have hstat1 : StatKept s s1 := by
+        rcases h1 with h | ⟨h, _⟩
+        · exact h.stat
+        · rw [h]; exact StatKept.refl s
+      have hstat3 : StatKept s1 s3 := by
+        intro p' m0 r0 rest0 hm0 hr0
+        by_cases hp' : p' = n :: pp
+        · subst hp'
+          rw [hm1] at hm0; cases hm0
+          rw [hr] at hr0; cases hr0
+          refine ⟨addUpperNode m (childReal pr n) true, childReal pr n, [], by rw [hm3]; simp [Mem.set],
+            by simp [addUpperNode], ?_, fun _ => ?_⟩
+          · have h1' := (hsh (n :: pp)).2.2.1
+            simp only [Layer.set, if_true] at h1'
+            simp only [Disk.statReal, hcl, hcp, hd3, nodeAt_setLayer0, if_true] at hnd1 ⊢
+            rw [h1', hXd, hnd1]
+          · have h1' := (hsh (n :: pp)).2.1
+            simp only [Layer.set, if_true] at h1'
+            simp only [Disk.statReal, hcl, hcp, hd3, nodeAt_setLayer0, if_true]
+            rw [h1', hXw]
+        · have hrp := (reals_shape hc1 hm0 r0 (by simp [hr0])).1
+          have hsame : sameShape (s3.disk.nodeAt r0.layer p') (s1.disk.nodeAt r0.layer p') := by
+            rw [hd3, nodeAt_setLayer0]
+            split
+            · rename_i h0
+              have := hsh p'
+              simp only [Layer.set, if_neg hp'] at this
+              rw [h0]
+              simpa [Disk.nodeAt, Disk.layer, hup] using this
+            · rw [hdisk2, nodeAt_setUpper_ne _ _ _ hu1 _ _ (fun h => hp' h.2)]
+              exact sameShape_refl _
+          refine ⟨m0, r0, rest0, by rw [hm3, hmem2]; simp [Mem.set, hp', hm0], hr0, ?_, fun h => ?_⟩
+          · simp only [Disk.statReal, hrp]; exact hsame.2.2.1
+          · simp only [Disk.statReal, hrp] at h ⊢; rw [hsame.2.1]; exact h
+      refine ⟨hfinal.congr ?_ ?_, ?_, ?_, ?_, ?_, ?_, hstat1.trans hstat3⟩
       · rw [hd3, hdisk2]
       · rw [hm3, hmem2, hnodeEq]
       · exact ⟨_, by rw [hm3]; simp [Mem.set], hupAt⟩
